@@ -144,6 +144,14 @@ func genC07Valid(t *rapid.T, typ string, st *propStats) (*opBuild, uint, int) {
 	default:
 		b = newDeactivate(alg, refHash(map[string]interface{}{"s": "x"}, alg), key("signer"), from, until)
 	}
+	maybeKid(t, b)
+	if typ != "create" && rapid.IntRange(0, 3).Draw(t, "headerSpelled") == 0 {
+		// the protected header is JSON text: member order and white space are free (signed over the text that is transmitted)
+		hs := spell(t, b.Header, 2)
+		pl := []byte(refJCS(b.Signed))
+		b.JWS = compactJWS(hs, pl, b.SignKey.Sign([]byte(b64([]byte(hs))+"."+b64(pl)), 0))
+		b.assemble()
+	}
 	return b, alg, nonceSize
 }
 
@@ -209,7 +217,7 @@ func c07Labels(typ string, b *opBuild) []string {
 	}
 	if typ != "create" {
 		l = append(l, "cfg-sig-alg-not-allowed", "cfg-key-curve-not-allowed", "req-alg-missing", "req-alg-empty", "req-extra-header", "req-key-missing-member",
-			"req-reveal-other-key", "req-reveal-respelled", "req-reveal-shortened", "req-header-duplicate-member", "req-missing-did-suffix", "req-missing-signed-data", "req-nonce-undecodable", "req-key-rsa", "req-key-unknown-kty")
+			"req-reveal-other-key", "req-reveal-respelled", "req-reveal-shortened", "req-reveal-edited", "req-header-not-object", "req-alg-not-string", "req-header-duplicate-member", "req-missing-did-suffix", "req-missing-signed-data", "req-nonce-undecodable", "req-key-rsa", "req-key-unknown-kty")
 		if b.SignKey.Nonce != "" {
 			l = append(l, "cfg-nonce-size-off-by-one")
 		}
@@ -222,7 +230,7 @@ func c07Labels(typ string, b *opBuild) []string {
 	case "recover":
 		l = append(l, "req-next-commitment-is-current-key", "req-update-equals-recovery-commitment")
 	case "deactivate":
-		l = append(l, "req-signed-suffix-mismatch")
+		l = append(l, "req-signed-suffix-mismatch", "req-signed-suffix-edited")
 	}
 	return l
 }
@@ -418,7 +426,7 @@ func TestC07_ParserAcceptsExactly(t *testing.T) {
 		case "req-reveal-other-key":
 			m.Reveal = otherKey(t, m.SignKey).Reveal(alg)
 			m.assemble()
-		case "req-reveal-respelled", "req-reveal-shortened", "req-header-duplicate-member":
+		case "req-reveal-respelled", "req-reveal-shortened", "req-header-duplicate-member", "req-reveal-edited", "req-header-not-object", "req-alg-not-string":
 			m.assemble()
 			tamperSigned(t, m, strings.TrimPrefix(label, "req-"), q)
 		case "req-missing-did-suffix":
@@ -446,6 +454,10 @@ func TestC07_ParserAcceptsExactly(t *testing.T) {
 			} else {
 				setHashField(m, "signed.recoveryCommitment", m.SignKey.Commitment(calg), alg)
 			}
+		case "req-signed-suffix-edited":
+			m.Signed["didSuffix"], detail = editString(t, m.Suffix)
+			m.sign()
+			m.assemble()
 		case "req-signed-suffix-mismatch":
 			m.Signed["didSuffix"] = refHash(map[string]interface{}{"s": "other"}, alg)
 			m.sign()
